@@ -463,6 +463,59 @@ def id_interleavings(rep, nthreads, nalloc):
     rep.count('distinct_nontrivial', len(outcomes))
 
 
+def deep_trees(rep):
+    """The tree functions are written without recursion: trees deeper than
+    the interpreter's recursion limit must work like any other."""
+    import sys
+    from ddsmt import nodes
+    from ddsmt.nodes import Node
+    depth = 3 * sys.getrecursionlimit()
+
+    def chain(leaf):
+        n = Node(leaf)
+        for _ in range(depth):
+            n = Node('f', n)
+        return n
+
+    def comb():
+        n = Node('x')
+        for i in range(depth // 2):
+            n = Node('g', Node('y'), n, Node('z'))
+        return n
+
+    for name, mk in (('chain', lambda: chain('a')), ('comb', comb)):
+        a, b = mk(), mk()
+        ops = [
+            ('==', lambda: (a == b) is True),
+            ('!=', lambda: (a != b) is False),
+            ('== other leaf', lambda: name != 'chain' or
+             (a == chain('b')) is False),
+            ('hash', lambda: hash(a) == hash(b)),
+            ('deepcopy', lambda: copy.deepcopy(a) == a),
+            ('pickle', lambda: pickle.loads(pickle.dumps(a)) == a),
+            ('dfs', lambda: sum(1 for _ in nodes.dfs(a)) ==
+             nodes.count_nodes(a)),
+            ('bfs', lambda: sum(1 for _ in nodes.bfs(a)) ==
+             nodes.count_nodes(a)),
+            ('count_exprs', lambda: nodes.count_exprs(a) > depth // 2 - 1),
+            ('reduplicate', lambda: nodes.reduplicate([a, a])[1] == a),
+            ('substitute', lambda: nodes.substitute(
+                a, {Node('a'): Node('b')}) is not None),
+        ]
+        for opname, fn in ops:
+            rep.count('evaluations')
+            rep.count('deep_tree_operations')
+            try:
+                ok = fn()
+                err = None
+            except BaseException as e:  # noqa
+                ok, err = False, f'{type(e).__name__}: {str(e)[:80]}'
+            if not ok:
+                rep.violation(f'deep|{opname}|{name}', {
+                    'brief': f'{opname} on a {name} tree of depth {depth}: '
+                             f'{err or "wrong result"}'})
+
+
 def main(tier):
     rep = common.Reporter(PROP, 'exploration', tier)
     _init()
@@ -489,6 +542,7 @@ def main(tier):
     pool_roundtrip(rep, list(sexp.trees(4 if rep.tier == 'quick' else 5,
                                         LEAVES)))
     rep.set('t_pool_s', round(time.time() - rep.t0, 1))
+    deep_trees(rep)
     id_interleavings(rep, 2, 2)
     if rep.tier == 'thorough':
         id_interleavings(rep, 3, 1)
